@@ -54,6 +54,9 @@ fn entries() -> Vec<(&'static str, EntryFn)> {
     v
 }
 
+/// the entry function behind a name (for entries that wrap another one, e.g. `realfam`)
+pub fn find_entry(name: &str) -> Option<EntryFn> { entries().into_iter().find(|(n, _)| *n == name).map(|(_, f)| f) }
+
 thread_local! {
     pub static LAST_PANIC: std::cell::RefCell<String> = const { std::cell::RefCell::new(String::new()) };
 }
